@@ -1,9 +1,12 @@
 #![allow(dead_code, unused_imports, unused_variables)]
 pub use vcommon::{num, refm, report, state};
+mod admin;
 mod chain;
 mod ix;
 mod kinds;
+mod matrix;
 mod mon;
+mod mon_admin;
 mod mon_risk;
 mod scen;
 mod storm;
@@ -148,6 +151,90 @@ async fn run_scen(a: &Args, m: &mut mon::Mon) {
     }
 }
 
+/// Administrative workload (C12 / C13 / C19 and the attribution part of C08): admin instructions
+/// with hostile arguments by entitled and non-entitled signers, interleaved with user activity,
+/// plus the directed staked-settings, deleverage and wipe-out scenarios.
+async fn run_admin(a: &Args, m: &mut mon::Mon) {
+    use rand::Rng;
+    let t0 = Instant::now();
+    let mut world_no = 0u64;
+    while t0.elapsed() < a.budget {
+        let seed = subseed(a, world_no);
+        let mut r = storm::rng(seed);
+        let cfg = storm::StormCfg { n_banks: r.gen_range(3..=5), n_users: 3, program_fees: r.gen_bool(0.7), magnitude: 1, with_staked: false };
+        let (mut w, mut s) = storm::Storm::build(seed, cfg).await;
+        let g = s.g;
+        let mut ad = admin::Admin { g, emint: None, steps: 0 };
+        let rounds = if a.tier == "thorough" { 3000 } else { 700 };
+        let mut staked_done = false;
+        for k in 0..rounds {
+            if t0.elapsed() >= a.budget {
+                break;
+            }
+            match r.gen_range(0..100) {
+                0..=49 => s.step(&mut w, m).await,
+                50..=89 => {
+                    ad.step(&mut w, m, &mut r).await;
+                }
+                90..=94 => ad.emissions_user(&mut w, m, &mut r).await,
+                _ => {}
+            }
+            if (k == 100 || (k > 100 && r.gen_bool(0.002))) && matches!(a.prop.as_str(), "C12" | "C13") && !staked_done {
+                staked_done = true;
+                admin::staked_flow(&mut w, m, &mut r, g).await;
+            }
+            if k % 150 == 149 && matches!(a.prop.as_str(), "C12" | "C13" | "C19") {
+                w.refresh_oracles();
+                let nb = w.banks.len();
+                let cands: Vec<usize> = (0..nb).filter(|b| scen::usable_collateral(&w, *b)).collect();
+                let dbs: Vec<usize> = (0..nb).filter(|b| w.bank(*b).config.operational_state == marginfi_type_crate::types::BankOperationalState::Operational && w.bank(*b).config.asset_tag <= 1).collect();
+                if !cands.is_empty() && dbs.len() > 1 {
+                    let ca = storm::pick(&mut r, &cands);
+                    let db = storm::pick(&mut r, &dbs);
+                    if ca != db {
+                        if let Some(lev) = scen::setup_leveraged(&mut w, m, &mut r, g, s.liquidator, ca, db, 0.9).await {
+                            if a.prop == "C12" {
+                                scen::scale_price_any(&mut w, ca, 0.7).await;
+                                scen::deleverage(&mut w, m, &mut r, &lev, g).await;
+                            }
+                        }
+                    }
+                }
+            }
+            if k == 400 && a.prop == "C13" {
+                scen::wipeout(&mut w, m, &mut r, g, s.liquidator).await;
+            }
+        }
+        m.r.add("storm.steps", s.steps);
+        m.r.add("admin.steps", ad.steps);
+        m.r.add("storm.worlds", 1);
+        world_no += 1;
+    }
+}
+
+/// Matrices over twin groups (C08: signer x substitution; C14: bank state x pause timing).
+async fn run_matrix(a: &Args, m: &mut mon::Mon) {
+    use rand::Rng;
+    let t0 = Instant::now();
+    let mut world_no = 0u64;
+    while t0.elapsed() < a.budget {
+        let seed = subseed(a, world_no);
+        let mut r = storm::rng(seed);
+        let (mut w, t) = matrix::build_twin(seed, &mut r).await;
+        if a.prop == "C08" {
+            matrix::run_c08(&mut w, m, &mut r, &t).await;
+        } else {
+            matrix::run_c14(&mut w, m, &mut r, &t).await;
+            if t0.elapsed() < a.budget {
+                let lender = t.liquidator0;
+                scen::wipeout(&mut w, m, &mut r, t.g0, lender).await;
+            }
+        }
+        m.r.add("matrix.worlds", 1);
+        world_no += 1;
+    }
+}
+
 #[tokio::main(flavor = "current_thread")]
 async fn main() {
     if std::env::var("RUST_LOG").is_err() {
@@ -175,6 +262,11 @@ async fn main() {
         "C07" => vec!["C07"],
         "C10" => vec!["C10"],
         "C09" => vec!["C09", "C04", "C05", "C07", "C10"],
+        "C08" => vec!["C08"],
+        "C12" => vec!["C12"],
+        "C13" => vec!["C13"],
+        "C14" => vec!["C14"],
+        "C19" => vec!["C19"],
         "C11" => vec!["C11"],
         "ALL" => vec!["C01", "C02", "C03", "C06", "C16", "C17", "C04", "C05", "C07", "C10", "C11"],
         _ => vec![],
@@ -183,6 +275,16 @@ async fn main() {
     match a.prop.as_str() {
         "C01" | "C02" | "C03" | "C06" | "C16" | "C17" | "ALL" | "C11" => run_storm(&a, &mut m).await,
         "C04" | "C05" | "C07" | "C10" | "C09" => run_scen(&a, &mut m).await,
+        "C12" | "C13" | "C19" => run_admin(&a, &mut m).await,
+        "C08" | "C14" => {
+            if a.shard % 2 == 0 {
+                run_matrix(&a, &mut m).await
+            } else if a.prop == "C08" {
+                run_admin(&a, &mut m).await
+            } else {
+                run_storm(&a, &mut m).await
+            }
+        }
         p => {
             eprintln!("unknown property {}", p);
             std::process::exit(3);
